@@ -289,20 +289,56 @@ def r3(ctx):
     st = {x[1]: vtext(x[2]) for x in p[0].effects if x[0] == "store"}
     ok = len(p) == 1 and st.get("self.lines") == "[]" and st.get("self.local_sloc") == "0" and vtext(p[0].result[1]) == "self.local_sloc" and not any(x[0] == "call" and x[1].startswith("self.lines.") for x in p[0].effects)
     ctx.check(ok, "file_source:line_info.physical_reset", f"must return the counted lines, RE-BIND lines to a new list (the old one is owned by a tree node) and zero the count: {p[0].describe()}", f.loc())
+    from ..spec import tab as _tab, vt as _vt
+
+    def _effs(p):
+        out = []
+        for e in p.effects:
+            if e[0] in ("store", "call"):
+                out.append((e[0], _vt(e[1]), tuple(_vt(x) for x in e[2:] if not isinstance(x, tuple))))
+            elif e[0] == "aug":
+                out.append(("aug", _vt(e[1]), (e[2], _vt(e[3]))))
+        return out
+
+    # table specifications (what is done on every path, however it is written)
     f = li.find_method("physical_update")
-    t = u(f.node)
-    ok = "self.category = self.current_logical_line.category()" in t and "self.flushed_line = self.current_logical_line.flush()" in t and t.index("self.category =") < t.index("self.flushed_line =")
-    ctx.soft(ok, "file_source:line_info.physical_update", "category must be taken before the buffer is flushed", f.loc())
+    for p in _tab(f, unroll=1):
+        ef = _effs(p)
+        cat = [i for i, e in enumerate(ef) if e[:2] == ("store", "self.category")]
+        fl = [i for i, e in enumerate(ef) if e[0] == "store" and e[2] and e[2][0].endswith("current_logical_line.flush()")] + [i for i, e in enumerate(ef) if e[0] == "call" and e[1].endswith("current_logical_line.flush")]
+        ok = len(cat) == 1 and ef[cat[0]][2] == ("self.current_logical_line.category()",) and bool(fl) and cat[0] < min(fl)
+        ctx.check(ok, "file_source:line_info.physical_update", f"the category of the logical line must be taken from the buffer BEFORE the buffer is flushed (a flushed buffer is blank): {p.describe()[:200]}", f.loc())
     lg = repo.cls("file_parser", "LineGroup")
     f = lg.find_method("add_line")
-    t = u(f.node)
-    ok = f"self.line_count += {f.params[2]}" in t and f"self.lines.extend({f.params[4]})" in t
-    ctx.soft(ok, "file_parser:LineGroup.add_line", "must add the sloc count and extend the line list", f.loc())
+    pc, pl = f.params[2], f.params[4]
+    n_al = 0
+    for p in _tab(f, unroll=1):
+        ef = _effs(p)
+        at = {_vt(k): v for k, v in p.atoms.items()}
+        n_al += 1
+        cnt = [e for e in ef if e[0] == "aug" and e[1] == "self.line_count"]
+        ok = cnt == [("aug", "self.line_count", ("Add", pc))]
+        has_lines = next((not v for k, v in at.items() if k in (f"None Eq {pl}", f"{pl} Eq None")), None)
+        if has_lines is None:
+            has_lines = at.get(pl)
+        ext = [e for e in ef if e[0] == "call" and e[1] in ("self.lines.extend",) or (e[0] == "aug" and e[1] == "self.lines")]
+        if has_lines is False:
+            ok = ok and not ext
+        else:
+            ok = ok and len(ext) == 1 and (ext[0][2] == (pl,) or ext[0][2] == ("Add", pl))
+        ctx.check(ok, "file_parser:LineGroup.add_line", f"a logical line adds its sloc count to the group's count and its counted line numbers to the group's line list, once each: {p.describe()[:220]}", f.loc())
+    if not n_al:
+        raise AnalysisError("LineGroup.add_line: no path")
     f = lg.find_method("merge")
     g = f.params[1]
-    t = u(f.node)
-    ok = f"self.line_count += {g}.line_count" in t and f"self.lines.extend({g}.lines)" in t and f"{g}.reset()" in t
-    ctx.soft(ok, "file_parser:LineGroup.merge", "must add the other group's count and lines, then reset it", f.loc())
+    for p in _tab(f, unroll=1):
+        ef = _effs(p)
+        ok = [e for e in ef if e[0] == "aug" and e[1] == "self.line_count"] == [("aug", "self.line_count", ("Add", f"{g}.line_count"))]
+        ext = [e for e in ef if (e[0] == "call" and e[1] == "self.lines.extend") or (e[0] == "aug" and e[1] == "self.lines")]
+        ok = ok and len(ext) == 1 and ext[0][2] in ((f"{g}.lines",), ("Add", f"{g}.lines"))
+        rs = [i for i, e in enumerate(ef) if e[0] == "call" and e[1] == f"{g}.reset"]
+        ok = ok and len(rs) == 1 and rs[0] > max(i for i, e in enumerate(ef) if e in ext or (e[0] == "aug" and e[1] == "self.line_count"))
+        ctx.check(ok, "file_parser:LineGroup.merge", f"merging adds the other group's count and its lines, once each, and resets the other group afterwards: {p.describe()[:220]}", f.loc())
     f = lg.find_method("reset")
     p = ev.paths(f.node)
     st = {x[1]: vtext(x[2]) for x in p[0].effects if x[0] == "store"}
@@ -310,15 +346,46 @@ def r3(ctx):
     ctx.check(ok, "file_parser:LineGroup.reset", "must re-bind lines/body to new lists (the old ones were handed to a node) and zero the count", f.loc())
     # nodes get num_lines and lines from the same group
     fp = repo.cls("file_parser", "FileParser")
+    from ..spec import call_args as _call_args
+
     f = fp.find_method("insert_code_node")
-    c = [x for x in f.calls() if (dotted(x.func) or "").endswith("CodeNode")]
-    ok = len(c) == 1 and [u(a) for a in c[0].args[:3]] == [f"{f.params[1]}.start_line", f"{f.params[1]}.end_line", f"{f.params[1]}.line_count"] and {k.arg: u(k.value) for k in c[0].keywords}.get("lines") == f"{f.params[1]}.lines"
-    ctx.soft(ok, "file_parser:FileParser.insert_code_node", "a code node must take its count and its line list from the same group", f.loc())
-    f = fp.find_method("insert_directive_node")
-    t = u(f.node)
     g = f.params[1]
-    ok = f"new_node.num_lines = {g}.line_count" in t and f"new_node.lines = {g}.lines" in t
-    ctx.soft(ok, "file_parser:FileParser.insert_directive_node:count-and-lines", "a directive node must take its count and its line list from the same group", f.loc())
+    n_cn = 0
+    for p in _tab(f, unroll=1):
+        for e in p.effects:
+            txt = " ".join(_vt(x) for x in e[1:] if not isinstance(x, tuple))
+            i = txt.find("CodeNode(")
+            if i < 0:
+                continue
+            j0 = txt.rfind(" ", 0, i) + 1
+            name = txt[j0 : i + len("CodeNode")]
+            depth = 0
+            for j in range(i + len("CodeNode"), len(txt)):
+                depth += txt[j] == "("
+                depth -= txt[j] == ")"
+                if depth == 0:
+                    break
+            ca = _call_args(txt[j0 : j + 1], name)
+            if not ca:
+                continue
+            n_cn += 1
+            pos, kw = ca
+            num = pos[2] if len(pos) > 2 else kw.get("num_lines")
+            lines = kw.get("lines", pos[4] if len(pos) > 4 else None)
+            ctx.check(num == f"{g}.line_count" and lines == f"{g}.lines", "file_parser:FileParser.insert_code_node", f"a code node must take its count and its line list from the same group ({g}.line_count / {g}.lines): num_lines={num}, lines={lines}", f.loc())
+    if not n_cn:
+        raise AnalysisError("insert_code_node: no CodeNode(...) construction found in the decision table")
+    f = fp.find_method("insert_directive_node")
+    g = f.params[1]
+    n_dn = 0
+    for p in _tab(f, unroll=1):
+        st_ = {_vt(e[1]).rsplit(".", 1)[-1]: _vt(e[2]) for e in p.effects if e[0] == "store" and "." in _vt(e[1])}
+        if "num_lines" not in st_ and "lines" not in st_:
+            continue
+        n_dn += 1
+        ctx.check(st_.get("num_lines") == f"{g}.line_count" and st_.get("lines") == f"{g}.lines", "file_parser:FileParser.insert_directive_node:count-and-lines", f"a directive node must take its count and its line list from the same group ({g}.line_count / {g}.lines): num_lines={st_.get('num_lines')}, lines={st_.get('lines')}", f.loc())
+    if not n_dn:
+        raise AnalysisError("insert_directive_node: no path sets num_lines / lines")
     ctx.floor(9)
 
 
